@@ -58,7 +58,7 @@ def run_batch(pid, tier, batch_seed, n_examples, watchdog_s):
         "pool": [],
     }
     digests = set()
-    state = {"target": None, "last_fail": None, "searching": True}
+    state = {"target": None, "last_fail": None, "failed_digests": set()}
     t_cons0, t_perm0, t_clock0 = (
         kernel.ORACLE.total_consults,
         kernel.ORACLE.total_permuted,
@@ -70,11 +70,12 @@ def run_batch(pid, tier, batch_seed, n_examples, watchdog_s):
         if state["target"] is not None:
             out["shrink_runs"] += 1
             # shrink budget (reporting quality only: the verdict is already decided); once it
-            # is exhausted every candidate but the best failing case so far "passes", so that
-            # Hypothesis settles on that case and its final replay still fails
+            # is exhausted every candidate not already known to fail "passes" without being
+            # executed, so that Hypothesis settles on the smallest failing case seen so far;
+            # cases already seen failing are re-executed and fail again (no flakiness)
             if (out["shrink_runs"] > SHRINK_RUNS
                     or time.perf_counter() - state["t_first_fail"] > SHRINK_WALL_S):
-                if case_digest(case) != state["best_digest"]:
+                if case_digest(case) not in state["failed_digests"]:
                     return
         t_case = time.perf_counter()
         try:
@@ -86,7 +87,7 @@ def run_batch(pid, tier, batch_seed, n_examples, watchdog_s):
             if v.label != state["target"]:
                 return  # keep the violation class stable while shrinking
             state["last_fail"] = (case, v.label, v.message)
-            state["best_digest"] = case_digest(case)
+            state["failed_digests"].add(case_digest(case))
             raise
         dt = time.perf_counter() - t_case  # reporting only: never used for a decision
         if dt > out["slowest_s"]:
